@@ -587,9 +587,13 @@ class TaskScenario(ScenarioData):
                                     latest_end = pred_start
 
                     # Also check successors (finish-to-start deps)
-                    successors = self._getSuccessors()
-                    for successor in successors:
+                    # with the edge's gapduration subtracted: we must end that much earlier
+                    for successor, succ_gap in self._getSuccessorEdges():
                         succ_start = successor.get("start", self.scenarioIdx)
+                        if succ_start and succ_gap:
+                            from datetime import timedelta
+
+                            succ_start = succ_start - timedelta(hours=self._parse_duration(succ_gap))
                         if succ_start and succ_start < latest_end:
                             latest_end = succ_start
 
